@@ -332,8 +332,10 @@ inductive Built
   | ok (filterable : Bool) (filters : Allow)
 deriving Repr, DecidableEq
 
-/-- constructor of FileProvider / CommandOutputProvider as far as filters are concerned
-(the file exists, is readable and is not black-listed) -/
+/-- constructor of EVERY provider kind as far as filters are concerned — FileProvider.__init__ +
+validate (208-229) and CommandOutputProvider.__init__ + validate (380-406, inherited by the container
+command / file providers) compute `_filterable` and `_filters` the same way from `ds` and refuse the
+same way (the file / command exists, is readable and is not black-listed) -/
 def construct (w : World) (st : State) (host : Bool) (ds : Comp) : State × Built :=
   let (st', fs, _) := getFilters w st ds
   if host && specFilterable w ds && fs.isEmpty then (st', .noFilter)
@@ -356,6 +358,19 @@ of the allow-list, so the only trace a load leaves is the look-up's cache entry.
 def loadArchive (w : World) (st : State) (ds : Comp) (file : List Str) : State × List Str :=
   let r := getFilters w st ds
   (r.1, providerContent grepF false true r.2.1 file)
+
+/-- `PointAbove w c p`: `p` is a registry point `dr.get_registry_points(c)` finds for the datasource
+`c` — `c` itself, or reached through dependents, however many levels (an alternative inside
+`first_of([...])`, something wrapped by `head()`, the command behind `foreach_execute`, …) -/
+inductive PointAbove (w : World) : Comp → Comp → Prop
+  | here {c : Comp} : (w.node c).isPoint = true → PointAbove w c c
+  | step {c d p : Comp} : (w.node c).isPoint = false → d ∈ (w.node c).dependents → PointAbove w d p →
+      PointAbove w c p
+
+/-- `CommandOutputProvider.load()` with `split=True` (spec_factory.py 408-444): grep is in the
+pipeline whenever the provider has filters -/
+def commandContent (grep : List Str → List Str → List Str) (fs : Allow) (output : List Str) : List Str :=
+  if fs.isEmpty then output else grep (keys fs) output
 
 /-! ### every branch of `TextFileProvider.load()` / `_stream()` (spec_factory.py 284-330) -/
 
